@@ -49,7 +49,7 @@ func parent() {
 		scs = append(scs, scenarios[i])
 	}
 	r.Extra["scenarios"] = scs
-	r.Extra["world"] = "g-a1(d0,+transfer)-{a2(d1),a2x(d1),a2m(d2)}; g-b1(d1)-b2(d2)-b3(d0); node=d3; clock=genesis+25s"
+	r.Extra["world"] = "g-a1(d0,+transfer)-{a2(d1),a2x(d1),a2m(d2),a2t(d1,+transfer)}; g-b1(d1)-b2(d2)-b3(d0); node=d3; clock=genesis+25s"
 
 	dir := core.ScratchDir("c19p")
 	defer os.RemoveAll(dir)
@@ -179,6 +179,7 @@ func parent() {
 			if st.WallS > sum.WallS {
 				sum.WallS = st.WallS
 			}
+			sum.CPUS += st.CPUS
 			sum.WriterSections = st.WriterSections
 			sum.SeqOrders, sum.SeqOutcomes = st.SeqOrders, st.SeqOutcomes
 			sum.Restarts += st.Restarts
